@@ -24,6 +24,12 @@ Section Thms.
     destruct p as [|s t]; cbn [at_path icls ifields assoc]; [intro H; injection H as <-; reflexivity|].
     destruct (find_cls S cn); [|discriminate]. destruct (mem s (subaggregates c)); discriminate.
   Qed.
+  Lemma at_path_cons_inv (i : inst) s t d : at_path sval S i (s :: t) = Some d ->
+    exists j, In (s, FSub sval j) (ifields sval i) /\ at_path sval S j t = Some d.
+  Proof.
+    cbn [at_path]. destruct (find_cls S (icls sval i)); [|discriminate]. destruct (mem s (subaggregates c)); [|discriminate].
+    destruct (assoc s (ifields sval i)) as [[|v|j]|] eqn:Ea; try discriminate. intro H. exists j. split; [apply assoc_in_l; exact Ea|exact H].
+  Qed.
   Theorem miss_on_blank_l cn n :
     (exists c, find_cls S cn = Some c) -> mem n (lt_none tb) = false -> defines S tb cn n = false ->
     getattr_m sval true S tb (Inst sval cn [] []) n = Err Reject.
